@@ -343,7 +343,7 @@ class SStr(SVal):
         cx.assume(z3.And(z3.PrefixOf(r, self.t), z3.InRe(tail, z3.Star(z3.Re(c))), z3.Not(z3.SuffixOf(c, r))))
         return SStr(r)
 
-    def meth_encode(self, cx, *a):
+    def meth_encode(self, cx, *a, encoding=None, errors=None):
         return self  # bytes modelled as the same code-point sequence (ASCII/UTF-8 payloads only)
 
     def meth_split(self, cx, sep=None, maxsplit=-1):
